@@ -1,6 +1,6 @@
 (* C14 - Timed events are delivered exactly once and decode to their schedule. *)
-From Verif Require Import Base.Tactics Base.ZList Base.Bits Model.CrcModel Model.EventsModel
-  Proofs.EventsProofs Proofs.CrcProofs.
+From Verif Require Import Base.Tactics Base.ZList Base.Bits Model.CrcModel Model.EventsModel Model.Scte35Model
+  Proofs.EventsProofs Proofs.CrcProofs Proofs.Scte35Proofs.
 
 (* create_emsg_boxes for a segment covering [a, b) of the event timeline emits exactly the
    scheduled events in it: ids k with a <= start + k*interval < b (k < count when count > 0),
@@ -52,6 +52,35 @@ Theorem C14_crc :
 Proof. exact crc32_check_zero. Qed.
 Print Assumptions C14_crc.
 
+(* SCTE-35: encoding then parsing is the identity, and the parsed section's CRC is valid, for
+   every signal of the modelled shapes (splice_null / splice_insert / time_signal; avail,
+   segmentation, time and unknown descriptors) whose field values fit their bit widths *)
+Theorem C14_scte35_roundtrip :
+  forall s, wf_signal s -> dec_signal (enc_signal s) = Some (Some s, true).
+Proof. exact roundtrip. Qed.
+Print Assumptions C14_scte35_roundtrip.
+
+(* the payload of scheduled event k at instant pt decodes to splice_event_id = k,
+   pts = pt*90000/timescale mod 2^33 and break_duration = duration*90000/timescale *)
+Theorem C14_payload :
+  forall s pid k pt,
+  0 < e_timescale s -> 0 <= e_count s < 500 -> 0 <= k < 500 -> 0 <= pid < 65536 ->
+  0 <= e_duration s * 90000 / e_timescale s < 8589934592 ->
+  exists sig, dec_signal (enc_signal (event_signal s pid k pt)) = Some (Some sig, true) /\
+    match sg_cmd sig with
+    | CInsert i => si_id i = k /\ si_pts i = Some (scte35_pts s pt) /\
+                   match si_break i with Some b => bd_dur b = scte35_break s | None => False end
+    | _ => False
+    end.
+Proof.
+  intros s pid k pt H1 H2 H3 H4 H5. exists (event_signal s pid k pt). split.
+  - apply roundtrip. apply event_signal_wf; assumption.
+  - cbn. repeat split; reflexivity.
+Qed.
+Print Assumptions C14_payload.
+
+(* (the byte string of C14_scte35_example below is what Scte35Events.get_emsg_event_payload(3, 3000)
+   returns on the real code) *)
 (* non-vacuity: count = 2, interval = 1000: the segment [1500, 2500) carries nothing (the two
    defects repaired in /repo emitted id 2 here), [500, 1500) carries event 1 *)
 Example C14_example :
@@ -60,3 +89,13 @@ Example C14_example :
   emsg s 1500 2500 = [] /\ emsg s 2000 3000 = [] /\ emsg s 500 1500 = [(1, 1000)] /\
   emsg s 0 2500 = [(0, 0); (1, 1000)].
 Proof. vm_compute. repeat split; reflexivity. Qed.
+
+Example C14_scte35_example :
+  let s := {| e_start := 0; e_interval := 1000; e_count := 0; e_timescale := 100; e_duration := 200;
+              e_version := 1; e_inband := true |} in
+  wf_signal (event_signal s 1620 3 3000) /\
+  bits_bytes (enc_signal (event_signal s 1620 3 3000)) =
+    [252; 0; 59; 0; 0; 0; 0; 0; 0; 255; 255; 240; 20; 5; 0; 0; 0; 3; 127; 239; 254; 0; 41; 50; 224; 126;
+     0; 2; 191; 32; 6; 84; 0; 0; 0; 22; 2; 20; 67; 85; 69; 73; 0; 0; 0; 0; 127; 255; 0; 0; 0; 0; 0; 15; 0; 53;
+     0; 0; 190; 16; 79; 0]%Z.
+Proof. split; [apply event_signal_wf; cbn; lia|]. vm_compute. reflexivity. Qed.
